@@ -408,37 +408,68 @@ def instVals (s : St) (c id : Nat) (dflt : List Val) : List Val :=
 def fetchAll (kidx : Nat) (rows : List Row) (k : Prog) : Prog :=
   rows.foldr (fun r acc => .mem (.fetch kidx r.id) acc) k
 
-/-- one entry of `destroySelf`'s dependents loop (class `kidx` depending on victim `(c, vid)`) -/
+/-! one entry of `destroySelf`'s dependents loop (class `kidx` depending on victim `(c, vid)`),
+    as a composition of segments, each taking the rest of the operation as its continuation -/
+
+/-- related joins of class `kidx` towards the victim's class: DELETE the link rows -/
+def freeLinksSeg (kc : Cls) (c vid : Nat) (cont : Prog) : Prog :=
+  (kc.joins.filter fun j => j.other == c).foldr (fun j acc => .stmt (.delLinks j.tab (!j.side) vid) acc) cont
+
+def restrictCols (fk : List (Nat × Pol)) : List (Nat × Pol) := fk.filter fun a => a.2 == .restrict
+def nullCols (fk : List (Nat × Pol)) : List Nat := (fk.filter fun a => a.2 == .null).map (·.1)
+def hasCascade (fk : List (Nat × Pol)) : Bool := fk.any fun a => a.2 == .cascade
+
+/-- rows of class `kidx` that reference the victim through a `cascade=False` key -/
+def restrictingRows (s : St) (fk : List (Nat × Pol)) (kidx vid : Nat) : Bool :=
+  (s.tab kidx).any fun r => rowRefs (restrictCols fk) vid r.vals
+
+/-- rows of class `kidx` that reference the victim through any key with a policy -/
+def refRows (s : St) (fk : List (Nat × Pol)) (kidx vid : Nat) : List Row :=
+  (s.tab kidx).filter fun r => rowRefs fk vid r.vals
+
+/-- `if restrict and k.select(OR(*restrict)).count(): raise` -/
+def restrictSeg (fk : List (Nat × Pol)) (kidx vid : Nat) (cont : Prog) : Prog :=
+  if (restrictCols fk).isEmpty then cont else
+    .stmt (.select kidx) <| .dyn fun s =>
+      if restrictingRows s fk kidx vid then .fail .integrity else cont
+
+/-- `if setnull: for row in results: row.set(**clear)` (and `syncUpdate()` for a lazy class) -/
+def nullSeg (sch : Schema) (fk : List (Nat × Pol)) (kidx vid : Nat) (cont : Prog) : Prog :=
+  if (nullCols fk).isEmpty then cont else
+    .stmt (.select kidx) <| .dyn fun s =>
+      let rows := refRows s fk kidx vid
+      fetchAll kidx rows <| rows.foldr
+        (fun r acc => .dyn fun s1 =>
+          let vs := instVals s1 kidx r.id r.vals
+          let clear := (nullCols fk).filter fun j => vs.getD j none == some (Int.ofNat vid)
+          setProg sch kidx r.id (clear.map fun j => (j, In.ok none)) [] <|
+            (if (clsOf sch kidx).lazy then syncProg kidx r.id acc else acc)) cont
+
+/-- `if delete: for row in results: row.destroySelf()` -/
+def cascadeSeg (rec : Nat → Nat → Prog → Prog) (fk : List (Nat × Pol)) (kidx vid : Nat) (cont : Prog) : Prog :=
+  if hasCascade fk then
+    .stmt (.select kidx) <| .dyn fun s =>
+      let rows := refRows s fk kidx vid
+      fetchAll kidx rows <| rows.foldr (fun r acc => rec kidx r.id acc) cont
+  else cont
+
 def depEntry (rec : Nat → Nat → Prog → Prog) (sch : Schema) (c vid kidx : Nat) (k : Prog) : Prog :=
   let kc := clsOf sch kidx
-  let freeLinks := fun (cont : Prog) =>
-    (kc.joins.filter fun j => j.other == c).foldr (fun j acc => .stmt (.delLinks j.tab (!j.side) vid) acc) cont
   let fk := fkCols kc.cols c
-  if fk.isEmpty then freeLinks k else
-  let nullcols := (fk.filter fun a => a.2 == .null).map (·.1)
-  let cascadeLoop : Prog :=
-    if fk.any (fun a => a.2 == .cascade) then
-      .stmt (.select kidx) <| .dyn fun s =>
-        let rows := (s.tab kidx).filter fun r => rowRefs fk vid r.vals
-        fetchAll kidx rows <| rows.foldr (fun r acc => rec kidx r.id acc) k
-    else k
-  let nullLoop : Prog :=
-    if nullcols.isEmpty then cascadeLoop else
-      .stmt (.select kidx) <| .dyn fun s =>
-        let rows := (s.tab kidx).filter fun r => rowRefs fk vid r.vals
-        fetchAll kidx rows <| rows.foldr
-          (fun r acc => .dyn fun s1 =>
-            let vs := instVals s1 kidx r.id r.vals
-            let clear := nullcols.filter fun j => vs.getD j none == some (Int.ofNat vid)
-            setProg sch kidx r.id (clear.map fun j => (j, In.ok none)) [] acc) cascadeLoop
-  let restrictTest : Prog :=
-    if fk.any (fun a => a.2 == .restrict) then
-      .stmt (.select kidx) <| .dyn fun s =>
-        -- only rows referencing the victim through a `cascade=False` column restrict
-        if (s.tab kidx).any (fun r => rowRefs (fk.filter fun a => a.2 == .restrict) vid r.vals)
-        then .fail .integrity else nullLoop
-    else nullLoop
-  freeLinks restrictTest
+  if fk.isEmpty then freeLinksSeg kc c vid k else
+  freeLinksSeg kc c vid <| restrictSeg fk kidx vid <| nullSeg sch fk kidx vid <| cascadeSeg rec fk kidx vid k
+
+/-- the victim's own related joins: DELETE its link rows -/
+def ownLinksSeg (cl : Cls) (id : Nat) (cont : Prog) : Prog :=
+  cl.joins.foldr (fun j acc => .stmt (.delLinks j.tab j.side id) acc) cont
+
+/-- the whole dependents loop, in registry order -/
+def depLoop (rec : Nat → Nat → Prog → Prog) (sch : Schema) (c id : Nat) (ks : List Nat) (cont : Prog) : Prog :=
+  ks.foldr (fun kidx acc => depEntry rec sch c id kidx acc) cont
+
+/-- own DELETE, then `_obsolete = True`, `cache.expire`, RowDestroyedSignal -/
+def destroyTail (c id : Nat) (k : Prog) : Prog :=
+  .stmt (.delete c id) <| .mem (.obsolete c id) <| .mem (.unreg c id) <| .event 6 k
 
 /-- `destroySelf()` (the inheritable override destroys the parent instance first) -/
 def destroyProg (sch : Schema) : Nat → Nat → Nat → Prog → Prog
@@ -446,10 +477,8 @@ def destroyProg (sch : Schema) : Nat → Nat → Nat → Prog → Prog
   | fuel + 1, c, id, k =>
     let cl := clsOf sch c
     let own : Prog :=
-      .event 5 <|
-      cl.joins.foldr (fun j acc => .stmt (.delLinks j.tab j.side id) acc) <|
-      (List.range sch.length).foldr (fun kidx acc => depEntry (destroyProg sch fuel) sch c id kidx acc) <|
-      .stmt (.delete c id) <| .mem (.obsolete c id) <| .mem (.unreg c id) <| .event 6 k
+      .event 5 <| ownLinksSeg cl id <|
+      depLoop (destroyProg sch fuel) sch c id (List.range sch.length) <| destroyTail c id k
     match cl.parent with
     | some p => destroyProg sch fuel p id own
     | none => own
